@@ -1,9 +1,13 @@
 package core
 
 import (
+	"encoding/json"
+	"fmt"
 	"testing"
 
 	"github.com/koron-go/z80/verifharness/eng"
+	"github.com/koron-go/z80/verifharness/ref"
+	"github.com/koron-go/z80/verifharness/stats"
 	"pgregory.net/rapid"
 )
 
@@ -21,4 +25,98 @@ func TestC01Step(t *testing.T) {
 		"non-trivial = changes more than PC/R or makes a data/port access; distinct by hash(encoding, pre-state, operands, memory seed)"
 	rapid.Check(t, p.property(false))
 	p.finishClasses()
+}
+
+// soupLockstep runs a soup case in lock-step against the model and returns the
+// first discrepancy of one of the given kinds.
+func soupLockstep(rig *lockRig, c *soupCase, kinds map[string]bool) (msg string, steps int, truncated bool, classes []string) {
+	rig.init(c.St, c.MemSeed, c.IOSeed, c.Fill, c.IOFill)
+	for i, b := range c.Code {
+		rig.poke(c.St.PC+uint16(i), uint8(b))
+	}
+	for s := 0; s < c.Steps; s++ {
+		for _, it := range c.Intr {
+			if it.AtStep == s {
+				rig.raise(refRequest(it))
+			}
+		}
+		for _, a := range c.Actions {
+			if a.AtStep == s {
+				switch a.Kind {
+				case "poke":
+					rig.poke(a.Addr, uint8(a.Val))
+				case "setpc":
+					rig.ms.PC = a.Addr
+					rig.cpu.PC = a.Addr
+				}
+			}
+		}
+		o := rig.step()
+		if o.skipped {
+			return "", s, true, classes
+		}
+		for _, d := range o.discs {
+			if kinds[d.Kind] || d.Kind == eng.KPanic {
+				return fmt.Sprintf("Step %d (%s at PC=%04x): %s: %s", s+1, o.in.Class, o.pre.PC, d.Kind, d.Msg), s, false, classes
+			}
+		}
+		if len(o.discs) > 0 {
+			return "", s, true, classes // someone else's discrepancy: the two sides have diverged
+		}
+		classes = append(classes, o.in.Class)
+	}
+	return "", c.Steps, false, classes
+}
+
+func refRequest(it soupIntr) ref.Request {
+	return ref.Request{NMI: it.NMI, Data: toBytes(it.Data)}
+}
+
+func init() {
+	replayers["soup"] = func(prop string, raw json.RawMessage) (string, error) {
+		var c soupCase
+		if err := json.Unmarshal(raw, &c); err != nil {
+			return "", err
+		}
+		kinds := stepKinds[prop]
+		if kinds == nil {
+			kinds = stepKinds["C01"]
+		}
+		m, _, _, _ := soupLockstep(newLockRig(), &c, kinds)
+		return m, nil
+	}
+}
+
+// TestC01Soup: multi-Step programs in lock-step with the model, compared after every Step
+// (catches state carried from one instruction to the next).
+func TestC01Soup(t *testing.T) {
+	col := stats.New("C01")
+	col.Sub = "soup"
+	defer finish(t, col)
+	col.Rule = "soup: byte strings of 1..24 implemented encodings with drawn operands (prefix forms, block repeats, relative jumps favoured) placed at PC over hashed / NOP-filled memory, " +
+		"run for up to 64 Steps in lock-step with the reference model and compared after every Step; a run ends without verdict where the model meets an encoding outside its table; " +
+		"non-trivial = program of >= 2 executed Steps; distinct by hash(code, state)"
+	rig := newLockRig()
+	rapid.Check(t, func(t *rapid.T) {
+		c := genSoup(t, 24, 64)
+		msg, steps, trunc, _ := soupLockstep(rig, &c, stepKinds["C01"])
+		col.Eval(1)
+		if msg != "" {
+			violation(t, "C01", "soup", c, "reference model, every Step", msg)
+		}
+		col.LabelN("soup-steps", int64(steps))
+		if trunc {
+			col.Label("soup-truncated")
+		}
+		if steps >= 2 {
+			h := stateHash(&c.St)
+			for _, b := range c.Code {
+				h = stats.Hash(h, uint64(b))
+			}
+			col.Distinct(h)
+			if col.WantSample(h) && len(c.Code) < 40 {
+				col.Sample(h, c)
+			}
+		}
+	})
 }
